@@ -72,14 +72,15 @@ ConcatTail == {"ConcatAB", "ConcatBA", "AddAssignAB"}
 AllTail == {"Add", "ConcatAB", "ConcatBA", "AddAssignAB", "AddAssignBA", "ConcatBB", "Clone", "CloneWithoutBody",
             "CloneWithoutBodySelf", "Resolve", "FromListing", "Filter", "Supplied", "New", "AddMany"}
 
-QuickC10Tail == AllTail \ {"New", "ConcatBB", "AddMany"}
+QuickC10Tail == AllTail \ {"ConcatBB", "AddMany"}
 Profiles ==
   CASE Prop = "C08" /\ Tier = "quick" ->
          {Prof("adds", Full, 3, {}, 0, {}, {}, 0, 0),
           Prof("concat", Tiny, 2, Tiny, 2, ConcatTail, {}, 1, 1)}
     [] Prop = "C08" /\ Tier = "thorough" ->
          {Prof("adds", Full, 3, {}, 0, {}, {}, 0, 0),
-          Prof("deep", Small, 5, {}, 0, {}, {}, 0, 0),
+          Prof("deep", Small, 4, {}, 0, {}, {}, 0, 0),
+          Prof("deeper", Tiny, 5, {}, 0, {}, {}, 0, 0),
           Prof("concat", Small, 2, Small, 2, ConcatTail, {}, 1, 1)}
     [] Prop = "C09" /\ Tier = "quick" ->
          {Prof("adds", Full, 3, {}, 0, {}, {}, 0, 0),
